@@ -6,7 +6,6 @@ from __future__ import annotations
 import atexit
 import hashlib
 import json
-import multiprocessing as mp
 import os
 import shutil
 import sys
@@ -209,65 +208,95 @@ def finish(ctx: Ctx) -> int:
 
 
 # ---------------------------------------------------------------------------
-# deterministic parallel map (fork; workers inherit the already-initialised session
-# modules but never a live session object that owns threads)
+# deterministic parallel map.  Plain os.fork from the main thread (multiprocessing.Pool forks from
+# helper threads and dead-locked at exit when stdout was a pipe); static round-robin sharding, so
+# which worker handles which item is a function of the index only; results come back through
+# pickle files on /dev/shm.
 
-_WORKER_FN = None
-_WORKER_INIT = None
+import pickle
 
-
-def _worker_boot():
-    global _scratch_root, _scratch_n
-    _scratch_root = None  # each worker gets its own scratch root (cleaned by parent rmtree of /dev/shm/xverif.* on exit)
-    if _WORKER_INIT is not None:
-        _WORKER_INIT()
+_pmap_n = 0
 
 
-def _worker_call(chunk):
-    idx, items = chunk
-    out = []
-    for it in items:
-        try:
-            out.append(_WORKER_FN(it))
-        except ToolError:
-            raise
-        except BaseException as e:  # noqa: BLE001 - a harness crash must not be silent
-            raise ToolError(f"worker crashed on item {it!r}: {type(e).__name__}: {e}\n{traceback.format_exc()}") from None
-    return idx, out
-
-
-_worker_scratch_roots = []
+def _run_shard(fn, init, chunks, path):
+    global _scratch_root
+    _scratch_root = None
+    try:
+        if init is not None:
+            init()
+        out = []
+        for idx, items in chunks:
+            res = []
+            for it in items:
+                try:
+                    res.append(fn(it))
+                except ToolError:
+                    raise
+                except BaseException as e:  # noqa: BLE001 - a harness crash must not be silent
+                    raise ToolError(f"worker crashed on item {it!r}: {type(e).__name__}: {e}\n{traceback.format_exc()}") from None
+            out.append((idx, res))
+        with open(path, "wb") as f:
+            pickle.dump(("ok", out), f)
+    except BaseException as e:  # noqa: BLE001
+        with open(path, "wb") as f:
+            pickle.dump(("err", f"{type(e).__name__}: {e}\n{traceback.format_exc()}"), f)
 
 
 def pmap(fn, items, jobs, chunk=32, init=None, seed=0):
     """Apply fn to every item; results come back in item order whatever the dispatch order.
-    `seed` only rotates the dispatch order of chunks (coverage is independent of it)."""
-    global _WORKER_FN, _WORKER_INIT
+    `seed` only rotates which worker gets which chunk (coverage is independent of it)."""
+    global _pmap_n
     items = list(items)
     if not items:
         return []
     chunks = [(i, items[i : i + chunk]) for i in range(0, len(items), chunk)]
-    if seed and len(chunks) > 1:
-        r = seed % len(chunks)
-        chunks = chunks[r:] + chunks[:r]
-    _WORKER_FN, _WORKER_INIT = fn, init
+    nproc = max(1, min(jobs, len(chunks)))
     results = {}
-    if jobs <= 1 or len(chunks) == 1:
+    if nproc == 1:
         if init is not None:
             init()
-        for c in chunks:
-            idx, out = _worker_call(c)
-            results[idx] = out
+        for idx, its in chunks:
+            results[idx] = [fn(it) for it in its]
     else:
-        mpctx = mp.get_context("fork")
-        with mpctx.Pool(min(jobs, len(chunks)), initializer=_worker_boot) as pool:
-            for idx, out in pool.imap_unordered(_worker_call, chunks):
-                results[idx] = out
+        _pmap_n += 1
+        root = scratch_root()
+        sys.stdout.flush()
+        sys.stderr.flush()
+        pids = []
+        for r in range(nproc):
+            mine = [c for k, c in enumerate(chunks) if (k + seed) % nproc == r]
+            path = os.path.join(root, f"pmap.{_pmap_n}.{r}.pkl")
+            pid = os.fork()
+            if pid == 0:
+                code = 0
+                try:
+                    _run_shard(fn, init, mine, path)
+                    sys.stdout.flush()
+                    sys.stderr.flush()
+                except BaseException:  # noqa: BLE001
+                    code = 3
+                finally:
+                    os._exit(code)
+            pids.append((pid, path))
+        errors = []
+        for pid, path in pids:
+            _, status = os.waitpid(pid, 0)
+            if not os.path.exists(path):
+                errors.append(f"worker {pid} died without result (status {status})")
+                continue
+            with open(path, "rb") as f:
+                kind, payload = pickle.load(f)
+            os.unlink(path)
+            if kind == "err":
+                errors.append(payload)
+            else:
+                for idx, res in payload:
+                    results[idx] = res
+        if errors:
+            raise ToolError("worker failure:\n" + "\n".join(errors[:3]))
     flat = []
     for i in sorted(results):
         flat.extend(results[i])
-    # workers created their own /dev/shm/xverif.<pid> roots; remove any that are left
-    base = "/dev/shm"
     return flat
 
 
